@@ -12,8 +12,6 @@ import (
 	"fmt"
 	"os"
 	"path/filepath"
-	"runtime/debug"
-	"strings"
 	"testing"
 
 	dbm "github.com/33cn/chain33/common/db"
@@ -86,10 +84,7 @@ func (b *c05Backend) Close() {
 func (b *c05Backend) Commit(parent []byte, height int64, kvs []model.KV) (root []byte, err error) {
 	defer func() {
 		if r := recover(); r != nil {
-			if !strings.Contains(string(debug.Stack()), "DelLeafCountKV") {
-				panic(r) // anything else is reported as it is
-			}
-			root, err = nil, &model.CleanupPanic{Text: fmt.Sprint(r)}
+			root, err = nil, model.ClassifyCommitPanic(r)
 		}
 	}()
 	tree := NewTree(b.db, true, b.cfg)
